@@ -124,3 +124,90 @@ func Verif_C18_decode_interleavings() {
 		verifrt.Assert(total == 1, "concurrent exclusive decodes of one reference run their function once")
 	}
 }
+
+// Two typed views of one object, linked to each other before they are
+// published (the shape of a merged form field / widget annotation).
+type verifField struct{ w *verifWidget }
+type verifWidget struct{ f *verifField }
+
+// Verif_C18_pair_interleavings: G goroutines reach one merged object from
+// both sides -- Decode for the field type, Decode for the widget type (both
+// decode functions build a linked pair and publish it with StoreOrLoadPair,
+// as annotation/decode does) or StoreOrLoadPair directly.  Under every
+// interleaving each caller gets halves that point at each other, and all
+// callers share one pair.
+func Verif_C18_pair_interleavings() {
+	G := 2 + verifrt.Tier()
+	ra := NewReference(1, 0)
+	g := &verifSchedGetter{objs: map[Reference]Native{ra: Dict{"FT": Name("Tx"), "Subtype": Name("Widget")}}}
+	g.meta.Version = V1_7
+	x := NewExtractor(g)
+	build := func() (*verifField, *verifWidget) {
+		f, w := &verifField{}, &verifWidget{}
+		f.w, w.f = w, f
+		return StoreOrLoadPair(x, ra, f, w)
+	}
+	decF := func(c Cursor, obj Object, isDirect bool) (*verifField, error) {
+		f, _ := build()
+		return f, nil
+	}
+	decW := func(c Cursor, obj Object, isDirect bool) (*verifWidget, error) {
+		_, w := build()
+		return w, nil
+	}
+	fields := make([]*verifField, G+1)
+	widgets := make([]*verifWidget, G+1)
+	ops := make([]int, G+1)
+	for i := 1; i <= G; i++ {
+		ops[i] = verifrt.Choice("op", 3)
+	}
+	verifrt.StartSched()
+	for i := 1; i <= G; i++ {
+		gid := i
+		verifrt.Go(func() {
+			c := CursorAt(x, nil)
+			switch ops[gid] {
+			case 0:
+				fields[gid], _ = Decode(c, ra, decF)
+			case 1:
+				widgets[gid], _ = Decode(c, ra, decW)
+			default:
+				fields[gid], widgets[gid] = build()
+			}
+		})
+	}
+	verifrt.WaitAll()
+	verifrt.Cover("all goroutines finished")
+	var f0 *verifField
+	var w0 *verifWidget
+	for i := 1; i <= G; i++ {
+		verifrt.Assert(fields[i] != nil || widgets[i] != nil, "every call returns a value")
+		if fields[i] != nil {
+			verifrt.Assert(fields[i].w != nil && fields[i].w.f == fields[i], "a returned field is linked to a widget that points back at it")
+			if f0 == nil {
+				f0 = fields[i]
+			}
+			verifrt.Assert(fields[i] == f0, "all callers share one field")
+		}
+		if widgets[i] != nil {
+			verifrt.Assert(widgets[i].f != nil && widgets[i].f.w == widgets[i], "a returned widget is linked to a field that points back at it")
+			if w0 == nil {
+				w0 = widgets[i]
+			}
+			verifrt.Assert(widgets[i] == w0, "all callers share one widget")
+		}
+		if fields[i] != nil && widgets[i] != nil {
+			verifrt.Assert(fields[i].w == widgets[i], "StoreOrLoadPair returns two halves that belong together")
+		}
+	}
+	// the published pair is what later decodes of either type see
+	fLater, _ := Decode(CursorAt(x, nil), ra, decF)
+	wLater, _ := Decode(CursorAt(x, nil), ra, decW)
+	verifrt.Assert(fLater != nil && wLater != nil && fLater.w == wLater && wLater.f == fLater, "later decodes see one linked pair")
+	if f0 != nil {
+		verifrt.Assert(fLater == f0, "a later decode returns the shared field")
+	}
+	if w0 != nil {
+		verifrt.Assert(wLater == w0, "a later decode returns the shared widget")
+	}
+}
